@@ -100,6 +100,26 @@ def odd_name_inputs() -> list[tuple[str, dict]]:
     return out
 
 
+def value_probes() -> list[tuple[str, dict]]:
+    """Sentinel-like parameter values (the listeners use -1 / "NOT SET" as 'not set yet'): integers -1 and 0, fixed point values
+    around zero, empty strings, and every position mark with x, y in {-1, -1.5, 0, 0.5, 1, 1.5}; each value alone and in second /
+    last position, in a plain op and in a jump-carrying op."""
+    from gen import ssb
+
+    values: list = [-1, 0, 1, ["fixed", "-1.0"], ["fixed", "-1.5"], ["fixed", "0.0"], ["fixed", "-0.5"], ["str", ""], ["lang", [["english", ""]]], ["lang", [["english", ""], ["german", "x"]]], ["const", "_"]]
+    coords = [(-1, 0), (-1, 2), (0, 0), (0, 2), (1, 0), (1, 2)]
+    for xr, xo in coords:
+        for yr, yo in coords:
+            values.append(["pos", "m", xo, yo, xr, yr])
+    values += [["pos", "", 0, 0, -1, -1], ["pos", "NOT SET", 0, 0, 0, 0]]
+    out = []
+    for i, v in enumerate(values):
+        for params in ([v], [5, v], [v, ["str", "t"], v]):
+            sym = {"routines": [dict(ssb.routine_header("GENERIC", 0), ops=[["probe", params, None], ["BranchValue", [v if isinstance(v, int) or v[0] in ("const",) else ["const", "$V"], 3, v if isinstance(v, int) else 7], [0, 0]], ["Return", [], None]])]}
+            out.append(("values", ssb.layout(sym, "words")))
+    return out
+
+
 def _inputs(shard: int, nshards: int, tier: str, seed: int):
     from gen import ssb
 
@@ -107,6 +127,7 @@ def _inputs(shard: int, nshards: int, tier: str, seed: int):
     if shard == 0:
         yield from keyword_probes()
         yield from odd_name_inputs()
+        yield from value_probes()
     yield from K.aimed_space(shard, nshards)
     yield from K.aimed_space(shard, nshards, multiline=True)
     # (b) exhaustive: all class lists over the task's alphabet up to 3 ops, over the jump-shape alphabet up to 4 (5) ops
